@@ -315,3 +315,78 @@ _run_c05y = run
 def run(ctx):  # noqa: F811
     _run_c05y(ctx)
     r05_5(ctx, ctx.model)
+
+
+# ---------------------------------------------------------------------------------------------------------------- R05.6
+def r05_6(ctx, m):
+    R = "R05.6"
+    ctx.rule(R, "in-place cuts of a chain (`X._ops = X._ops[:-k] + (placeholder,)`) in the loops over leaves / nodes are applied ONCE per "
+                "chain object: the deep copy keeps sharing, so one chain object may hang under several parents and is then visited "
+                "several times; a cut by a variable length k must be guarded by a set of already cut objects (test `id(X) in S` before, "
+                "`S.add(id(X))` after), a cut `[:-1] + (p,)` that replaces the last element by the placeholder is idempotent", floor=2)
+    inner = m.func(OTO, "_optimise_operator")
+    n = 0
+    for lp in [x for x in ast.walk(inner.node) if isinstance(x, ast.For)]:
+        for st in ast.walk(lp):
+            if not (isinstance(st, ast.Assign) and len(st.targets) == 1 and isinstance(st.targets[0], ast.Attribute) and st.targets[0].attr == "_ops"):
+                continue
+            # innermost enclosing for loop only
+            if any(isinstance(x, ast.For) and x is not lp and any(y is st for y in ast.walk(x)) for x in ast.walk(lp)):
+                continue
+            obj = src(st.targets[0].value)
+            val = st.value
+            cut = next((z for z in ast.walk(val) if isinstance(z, ast.Subscript) and isinstance(z.slice, ast.Slice) and src(z.value) == f"{obj}._ops"), None)
+            key = f"{inner.key}::`{short(st, 90)}` happens once per chain object"
+            if cut is None or cut.slice.upper is None:
+                ctx.und(R, key, "not a cut of the own `_ops`", inner, st)
+                n += 1
+                continue
+            n += 1
+            up = cut.slice.upper
+            if isinstance(up, ast.UnaryOp) and isinstance(up.op, ast.USub) and isinstance(up.operand, ast.Constant) and up.operand.value == 1 \
+                    and cut.slice.lower is None and isinstance(val, ast.BinOp) and isinstance(val.op, ast.Add) and val.left is cut \
+                    and isinstance(val.right, ast.Tuple) and len(val.right.elts) == 1:
+                ctx.check(R, key, True, "replaces the last element: idempotent", inner, st)
+                continue
+            idx = f"id({obj})"
+            sets = {src(c.func.value) for c in ast.walk(lp) if isinstance(c, ast.Call) and isinstance(c.func, ast.Attribute) and c.func.attr == "add"
+                    and len(c.args) == 1 and src(c.args[0]) == idx}
+            # the add must follow the cut in the same block
+            added = set()
+            for blk in ast.walk(lp):
+                for fld in ("body", "orelse"):
+                    b = getattr(blk, fld, None)
+                    if isinstance(b, list) and st in b:
+                        for later in b[b.index(st) + 1:]:
+                            for c in ast.walk(later):
+                                if isinstance(c, ast.Call) and isinstance(c.func, ast.Attribute) and c.func.attr == "add" and len(c.args) == 1 and src(c.args[0]) == idx:
+                                    added.add(src(c.func.value))
+            guards = set()
+            for iff in [x for x in ast.walk(lp) if isinstance(x, ast.If)]:
+                t = iff.test
+                if isinstance(t, ast.Compare) and len(t.ops) == 1 and src(t.left) == idx and src(t.comparators[0]) in sets:
+                    s_ = src(t.comparators[0])
+                    if isinstance(t.ops[0], ast.In) and iff.body and isinstance(iff.body[-1], ast.Continue) and iff.lineno < st.lineno \
+                            and not any(y is st for y in ast.walk(iff)):
+                        guards.add(s_)
+                    if isinstance(t.ops[0], ast.NotIn) and any(y is st for b_ in iff.body for y in ast.walk(b_)):
+                        guards.add(s_)
+            ok = bool(guards & added)
+            # the set is created outside this loop (it has to survive the rounds of the loop)
+            if ok:
+                s_ = sorted(guards & added)[0]
+                inside = any(isinstance(a_, ast.Assign) and src(a_.targets[0]) == s_ for a_ in ast.walk(lp))
+                ok = not inside
+            ctx.check(R, key, ok, f"cut by `{src(up)}` " + (f"guarded by the set `{sorted(guards & added)[0]}`" if ok else
+                      f"without a once-per-object guard (tests on {sorted(guards) or 'nothing'}, add after the cut to {sorted(added) or 'nothing'}): "
+                      "a chain object shared by two parents is cut twice and loses operators"), inner, st)
+    if not n:
+        ctx.und(R, f"{inner.key}::in-place chain cuts", "none found", inner)
+
+
+_run_c05z = run
+
+
+def run(ctx):  # noqa: F811
+    _run_c05z(ctx)
+    r05_6(ctx, ctx.model)
